@@ -25,6 +25,9 @@ Proof. decide equality; auto using who_eq_dec, Nat.eq_dec. Defined.
 Definition err_eq_dec (a b : err_entry) : {a = b} + {a <> b}.
 Proof. decide equality; auto using ident_eq_dec, list_eq_dec. Defined.
 
+Definition option_eq_dec {A} (d : forall a b : A, {a = b} + {a <> b}) (a b : option A) : {a = b} + {a <> b}.
+Proof. decide equality. Defined.
+
 Definition outcome_eq_dec (a b : outcome) : {a = b} + {a <> b}.
 Proof. decide equality. apply list_eq_dec, err_eq_dec. Defined.
 
@@ -49,17 +52,38 @@ Definition decode_ev (c : N) : event :=
      (match k with 0 => Call | 1 => Report | _ => Fail end%N).
 
 (* RunDSL(): a case is (index, program, callback trace, class of the returned error,
-   what Context.Roots() returned before RunDSL) *)
-Definition run_case := (N * program * list N * outcome * res)%type.
+   what Context.Roots() returned before RunDSL, what it returns after RunDSL) *)
+Definition run_case := (N * program * list N * outcome * res * res)%type.
+
+(* run_dsl p and generate_roots p, sharing one evaluation of the execute phase *)
+Definition run_obs (p : program) : (list event * outcome) * res :=
+  let x := exec_phase p in
+  (match x with XStop st o => finish st o | XDone rs st => after_exec p rs st end,
+   roots_of p (s_regs (match x with XDone _ st => st | XStop st _ => st end))).
+
+Lemma run_obs_eq p : run_obs p = (run_dsl p, generate_roots p).
+Proof. reflexivity. Qed.
 
 Definition run_mismatches (cs : list run_case) : list N :=
-  flat_map (fun c => match c with (i, p, tr, o, ro) =>
-     let m := run_dsl p in
+  flat_map (fun c => match c with (i, p, tr, o, ro, rpost) =>
+     let x := run_obs p in
+     let m := fst x in
      if list_eq_dec event_eq_dec (fst m) (map decode_ev tr) then
        if outcome_eq_dec (snd m) o then
-         if res_eq_dec (roots_of p (s_regs (init_state p))) ro then [] else [i]
+         if res_eq_dec (roots_of p (s_regs (init_state p))) ro then
+           if res_eq_dec (snd x) rpost then [] else [i]
+         else [i]
        else [i]
      else [i] end) cs.
+
+(* generator.Generate(): a case is (index, program, roots received by the plugin prepare
+   functions / the generators / the plugin generate functions, None when Generate failed
+   with the Roots() error) *)
+Definition gen_case := (N * program * option (list (list nat)))%type.
+
+Definition gen_mismatches (cs : list gen_case) : list N :=
+  flat_map (fun c => match c with (i, p, h) =>
+     if option_eq_dec (list_eq_dec (list_eq_dec Nat.eq_dec)) (handover p) h then [] else [i] end) cs.
 
 (* thorough tier: every digraph on 4 roots x the 24 registration orders, compactly:
    (graph code g, observed result per order); bit (4*i+j) of g <-> root i depends on
